@@ -63,6 +63,10 @@ func checkMultiset(c *core.Ctx, rule string, s msSite, ids map[string]int64) {
 			}
 			in.Hooks.Call = chainCall(func(st *absint.State, call *ast.CallExpr, callee string, recv absint.Val, args []absint.Val) (absint.Val, bool) {
 				switch {
+				case strings.HasSuffix(callee, "CustomTriggerGroupBy).trigger"):
+					// firing is judged by its own rules (ORD4, TRIGTIME); here it is an opaque step that succeeds
+					st.Emit("TRIGGER", call.Pos())
+					return absint.Nil{}, true
 				case msLookup.MatchString(callee):
 					st.Emit("LOOKUP", call.Pos(), args...)
 					isMap := strings.Contains(callee, "hashmap")
